@@ -902,7 +902,7 @@ func dumpTimings() {
 	}
 	sort.Slice(ks, func(i, j int) bool { return timings[ks[i]] > timings[ks[j]] })
 	for i, k := range ks {
-		if i >= 40 {
+		if i >= 400 {
 			break
 		}
 		fmt.Fprintf(os.Stderr, "OPTIME %-40s total %-14v n=%-6d avg %v\n", k, timings[k], timingN[k], timings[k]/time.Duration(timingN[k]))
